@@ -22,8 +22,8 @@ RULE = ("case = history (list of calls) over the universe {e(a), e'(a), e(b), fi
 ASSUMPTIONS = ["block keys are not mutated while held", "K1 (add(..., fail_on_duplicate_key=True) raises after inserting) is a listed known finding"]
 MIN = {"library_invariant": (200000, 2000000), "model_step": (100000, 1000000), "atomicity_on_ValueError": (20000, 200000)}
 
-NAMES = ["ea", "eac", "e2a", "exa", "eb", "e0c", "e2c", "sa", "s2a", "sxa", "sb", "p", "c"]
-REPLACE_PAIRS = [("ea", "e2a"), ("ea", "eb"), ("eb", "e2a"), ("sa", "s2a"), ("sa", "ea"), ("e2a", "ea"), ("p", "c"), ("c", "eb"), ("eb", "sa"), ("sa", "sb"), ("sb", "s2a"), ("eb", "e2c"), ("p", "e0c"), ("eb", "exa"), ("sb", "sxa"), ("eac", "eb"), ("eb", "eac")]
+NAMES = ["ea", "eac", "e2a", "exa", "eb", "e0c", "e2c", "sa", "s2a", "sxa", "sb", "p", "c", "cc"]
+REPLACE_PAIRS = [("ea", "e2a"), ("ea", "eb"), ("eb", "e2a"), ("sa", "s2a"), ("sa", "ea"), ("e2a", "ea"), ("p", "c"), ("c", "eb"), ("eb", "sa"), ("sa", "sb"), ("sb", "s2a"), ("eb", "e2c"), ("p", "e0c"), ("eb", "exa"), ("sb", "sxa"), ("eac", "eb"), ("eb", "eac"), ("cc", "eb"), ("cc", "e2a"), ("c", "cc"), ("p", "cc")]
 
 
 def all_ops():
@@ -33,6 +33,7 @@ def all_ops():
     ops += [["rm", n] for n in NAMES]
     ops += [["rp", a, b, f] for a, b in REPLACE_PAIRS for f in (True, False)]
     ops += [["rmw"], ["rpw", "eb", False], ["rpw", "e2a", True]]
+    ops += [["rml", ["ea", "p"]], ["rml", ["c", "cc"]]]
     return ops
 
 
@@ -93,10 +94,11 @@ def universe():
         "sb": M.String("b", "{z}", raw="@string{b = {z}}", start_line=7),
         "p": M.Preamble("p", raw="@preamble{p}", start_line=5),
         "c": M.ExplicitComment("c", raw="@comment{c}", start_line=6),
+        "cc": M.ExplicitComment("c", raw="@comment{c}", start_line=6),       # equal to c, another object: both can be held at once
     }
 
 
-EQUAL = {"ea": {"ea", "eac"}, "eac": {"ea", "eac"}}
+EQUAL = {"ea": {"ea", "eac"}, "eac": {"ea", "eac"}, "c": {"c", "cc"}, "cc": {"c", "cc"}}
 
 
 def kind_of(name):
@@ -127,12 +129,17 @@ class Model:
         return dict(name=name, wrapped=False, prev=None)
 
     def index_unwrapped(self, name):
-        """list.index / list.remove locate a block by EQUALITY: the first unwrapped slot holding a block equal to it."""
-        eq = EQUAL.get(name, {name})
+        """The slot that holds the block ITSELF (statement: 'every held block exactly once ... replace keeping the position'
+        speaks about the block passed in).  Returns (index, exact): when the block itself is not held but an equal
+        copy is, index is that copy's slot and exact is False - the statement says nothing about that case, the library
+        may raise ValueError or act on the equal copy, the model follows what it did."""
         for i, s in enumerate(self.slots):
-            if not s["wrapped"] and s["name"] in eq:
-                return i
-        return -1
+            if not s["wrapped"] and s["name"] == name:
+                return i, True
+        for i, s in enumerate(self.slots):
+            if not s["wrapped"] and s["name"] in EQUAL.get(name, ()):
+                return i, False
+        return -1, True
 
     def first_wrapper(self):
         for i, s in enumerate(self.slots):
@@ -146,7 +153,7 @@ class Model:
         return m
 
 
-CANON = {"eac": "ea"}      # equal-content blocks count as the same block ("leaves the library EQUAL to what it was")
+CANON = {"eac": "ea", "cc": "c"}      # equal-content blocks count as the same block ("leaves the library EQUAL to what it was")
 
 
 def observe(lib, U=None):
@@ -170,8 +177,8 @@ def compare_model(lib, model, U, wrappers):
         return f"blocks has {len(blocks)} elements, model {len(model.slots)}"
     for i, (b, s) in enumerate(zip(blocks, model.slots)):
         if not s["wrapped"]:
-            if b is not U[s["name"]] and not any(b is U[n] for n in EQUAL.get(s["name"], ())):
-                return f"blocks[{i}] is not {s['name']}"
+            if b is not U[s["name"]]:
+                return f"blocks[{i}] is not {s['name']}" + (" but its equal copy" if any(b is U[n] for n in EQUAL.get(s["name"], ())) else "")
         else:
             if not isinstance(b, M.DuplicateBlockKeyBlock):
                 return f"blocks[{i}] should be a duplicate wrapper of {s['name']}, is {type(b).__name__}"
@@ -198,6 +205,7 @@ def check(case, ctx):
         kind = op[0]
         # ---- model: expected outcome per the statement
         exp_raise = False
+        tolerant = False      # the call names a block that is not held itself while an equal copy is: either outcome accepted
         if kind in ("add", "addf", "addl"):
             names = op[1] if kind == "addl" else [op[1]]
             new_slots = []
@@ -209,11 +217,25 @@ def check(case, ctx):
                 exp_raise = True          # statement: a raising call leaves the library as it was
                 model = pre_model
         elif kind == "rm":
-            i = model.index_unwrapped(op[1])
+            i, exact = model.index_unwrapped(op[1])
+            tolerant = not exact
             if i < 0:
                 exp_raise = True
             else:
                 del model.slots[i]
+        elif kind == "rml":
+            # remove([..]): every listed block removed, or - if one of them is not held - ValueError and nothing removed
+            idxs = []
+            tmp = model.copy()
+            for n in op[1]:
+                i, exact = tmp.index_unwrapped(n)
+                tolerant = tolerant or not exact
+                if i < 0:
+                    exp_raise = True
+                    break
+                del tmp.slots[i]
+            if not exp_raise:
+                model = tmp
         elif kind == "rmw":
             i = model.first_wrapper()
             if i < 0:
@@ -221,7 +243,8 @@ def check(case, ctx):
             del model.slots[i]
         elif kind in ("rp", "rpw"):
             if kind == "rp":
-                i = model.index_unwrapped(op[1])
+                i, exact = model.index_unwrapped(op[1])
+                tolerant = not exact
                 new, fail = op[2], op[3]
             else:
                 i = model.first_wrapper()
@@ -248,6 +271,8 @@ def check(case, ctx):
                 lib.add([U[n] for n in op[1]])
             elif kind == "rm":
                 lib.remove(U[op[1]])
+            elif kind == "rml":
+                lib.remove([U[n] for n in op[1]])
             elif kind == "rmw":
                 lib.remove(lib.failed_blocks[0])
             elif kind == "rp":
@@ -285,11 +310,24 @@ def check(case, ctx):
                         model.slots.append(model.make(n))
                 else:
                     break
+        if tolerant and raised and not exp_raise:
+            model, exp_raise = pre_model, True          # the library refused the equal copy: fine as well
+            ctx.note("equal_copy_refused")
+        elif tolerant and not raised:
+            ctx.note("equal_copy_accepted")
         if bool(raised) != exp_raise:
             out.append(Violation("raise-mismatch", f"C08:raise-mismatch:{opsig}:{'unexpected' if raised else 'missing'}-ValueError",
                                  dict(step=step, op=op, raised=raised, expected=exp_raise, history=case["h"][:step + 1])))
             break
         ctx.mon("model_step")
+        if tolerant and len(lib.blocks) == len(model.slots):
+            # the call named a block that was not held itself: where the library put that equal copy in place of the held
+            # one (a rolled-back replace re-inserts the block it was given), follow it - equal by value, as the statement asks
+            rev = {id(v): k for k, v in U.items()}
+            for b, sl in zip(lib.blocks, model.slots):
+                nm = rev.get(id(b))
+                if not sl["wrapped"] and nm != sl["name"] and nm in EQUAL.get(sl["name"], ()):
+                    sl["name"] = nm
         why = compare_model(lib, model, U, None)
         if why:
             out.append(Violation("model-mismatch", f"C08:model:{opsig}:{why.split(' ')[0]}", dict(step=step, op=op, why=why, history=case["h"][:step + 1],
